@@ -59,6 +59,9 @@ def cases(tier, seed):
             cv = ["expanding", {"fh": fh, "initial_window": wl, "step_length": step}]
         else:
             cv = ["single", {"fh": fh, "window_length": wl if rng.random() < 0.5 else None}]
+            if rng.random() < 0.3:
+                # a window longer than the history before the test points (the splitter documents to use what is there)
+                cv[1]["window_length"] = n - max(fh) + int(rng.integers(1, max(fh) + 1))
         strategy = "refit" if rng.random() < 0.5 else "update"
         if zoo.requires_fh_in_fit(f) if not f[0].startswith("spy") else False:
             strategy = "refit"
@@ -99,6 +102,11 @@ def run_case(case, ctx):
         scoring = zoo.build_metric(case["scoring"])
         f = _build(case["forecaster"], lid)
         splits = [(np.asarray(tr), np.asarray(te)) for tr, te in cv.split(y)]
+        for i_, (tr_, te_) in enumerate(splits):
+            # what evaluate is asked to do must itself be honest: a fold whose training window reaches its own test points cannot be scored without look-ahead
+            ctx.check("leak", len(tr_) > 0 and len(te_) > 0 and int(tr_.max()) < int(te_.min()), "evaluate:fold-training-window-reaches-its-test-points",
+                      "the splitter hands evaluate a fold whose training window contains a time point at or after the fold's first test point", fold=i_,
+                      last_train=int(tr_.max()) if len(tr_) else None, first_test=int(te_.min()) if len(te_) else None, cv=case["cv"])
         fspec = case["forecaster"]
         # ---- code under test ------------------------------------------------------------
         ok, res = ctx.call("evaluate:exception", evaluate, f, cv, y.copy(), None if X is None else X.copy(), strategy=case["strategy"],
